@@ -176,6 +176,8 @@ def run(name, params, calls, layout, alias, key, ctx, count):
             if name == "CUSUM" and "Standard deviation is 0" in str(e):
                 trace.append({"state": "documented ValueError (zero variance)"})
                 break
+            if j == 0 and layout in ("zero_d_buffer", "one_d_view", "readonly_view", "readonly_buffer"):
+                return "refused"  # whether such a container is acceptable input at all is C14's question, not an aliasing matter
             raise
         if count:
             ctx.count("calls_with_argument_snapshots")
@@ -212,6 +214,9 @@ def run_case(case, ctx):
         ctx.count("one_column_batch_histories")
     a = run(name, params, calls, layout, True, key, ctx, True)
     if a is None:
+        return
+    if a == "refused":
+        ctx.count("layouts_refused_at_the_first_call:" + layout)
         return
     b = run(name, params, calls, layout, False, key, ctx, False)
     if b is None:
